@@ -584,6 +584,41 @@ theorem C15_callback_raises (E : Env ω ρ ξ α) (c : Callback ω) (pr : ω →
   rw [h7.1, h7.2.1]
   exact hr.labels
 
+/-- **`period = 0`** (accepted by `IterationStats.__init__`).  Without `display` the period is never
+    looked at: nothing is printed by any number of insertions and `end()` does nothing.  With
+    `display`, `end()` still never evaluates the modulo, but the first `insert` raises
+    `ZeroDivisionError` *after* the record is stored and the header printed; so a `solve()` with
+    `maxiter > 0` whose first step does not trip the NaN stop ends in that exception with exactly one
+    new record (number `itnum`, time = reading at the call + the step's duration, fields of the
+    state after the step), the counter unchanged, no callback invocation, the stop-watch left
+    running, and the object `Ready` for whatever follows. -/
+theorem C15_period_zero (o : DisplayOpts) (hp0 : o.period = 0) (k : Nat) (s : Disp)
+    (E : Env ω ρ ξ α) (cb : Option (Callback ω)) (d : Drv ω ρ L) (hr : Ready d) (hm : 0 < d.maxiter.toNat)
+    (hn : ¬ tripsAt E cb d.world d.nanstop 0) (g : Nat) :
+    (insertRaises o = o.display) ∧
+      (o.display = false → (dispInserts o k s).out = s.out) ∧ (dispEnd o s = s) ∧
+      (dispInsertRaise s).len = s.len + 1 ∧
+      (let r := (solveInsertRaise E cb d).1
+       (solveInsertRaise E cb d).2 = none ∧ r.itnum = d.itnum ∧ r.world = E.step d.world ∧
+        r.rows = d.rows ++ [⟨d.itnum, d.timer.elapsedDefault true d.clock + E.stepTicks d.world,
+          E.fields (E.step d.world)⟩] ∧
+        r.cblog = d.cblog ∧
+        (r.tick g).timer.elapsedDefault true (r.tick g).clock =
+          d.timer.elapsedDefault true d.clock + E.stepTicks d.world + g ∧
+        Ready (r.tick g)) := by
+  have hb : tripsB E d.nanstop (E.step d.world) = false := by
+    have := hn
+    rw [← tripsB_iff] at this
+    simpa [afterStep, worldAt] using this
+  obtain ⟨h1, h2, h3, h4, h5, _, h7⟩ := solveInsertRaise_spec E cb d hr.past hm hb
+  refine ⟨by simp [insertRaises, hp0], fun hd => by rw [dispInserts_off o hd], by simp [dispEnd, hp0], rfl, ?_⟩
+  have hadv := h7.advance ((solveInsertRaise E cb d).1.clock + g) (by omega)
+  refine ⟨h1, h3, h2, h4, h5, ?_, ⟨?_, hadv.wf⟩⟩
+  · have := h7.read ((solveInsertRaise E cb d).1.clock + g) (by omega)
+    simp only [tick_timer, tick_clock, this]; omega
+  · show (solveInsertRaise E cb d).1.timer.dflt ≠ (solveInsertRaise E cb d).1.timer.all
+    rw [h7.1, h7.2.1]; exact hr.labels
+
 /-- **…and not before, and never otherwise.**  `solve()` raises the NaN-stop exception iff some
     iteration of the call trips the test; it never ends in any other exception (in particular the
     timer calls inside `solve` cannot raise `KeyError`). -/
@@ -785,6 +820,15 @@ example :
     let r := solveRaise exEnv exCb id (fun _ => 40) exDrv 1
     r.2 = none ∧ r.1.rows.map (·.iter) = [2, 3] ∧ r.1.itnum = 3 ∧
       (r.1.tick 50).timer.elapsedDefault true (r.1.tick 50).clock = 3 := by decide
+
+-- display with period 0: the first insert raises; one record (number 2, time 1) is stored, the counter stays 2
+example :
+    let r := solveInsertRaise exEnv (some exCb) exDrv
+    r.2 = none ∧ r.1.rows.map (fun x => (x.iter, x.time)) = [(2, 1)] ∧ r.1.itnum = 2 ∧
+      insertRaises { display := true, period := 0 } = true := by decide
+-- the NaN stop in the LAST iteration of a call: `maxiter = 4` from the fresh example object trips in its 4th step
+example : (solve exEnv none (exDrv.setMaxiter 4)).2 = .nan ∧ (solve exEnv none (exDrv.setMaxiter 4)).1.itnum = 5 ∧
+    (solve exEnv none (exDrv.setMaxiter 4)).1.rows.length = 3 ∧ (solve exEnv none (exDrv.setMaxiter 3)).2 = .ok := by decide
 
 /-- a callback that asks for "no further iterations" by `optimizer.maxiter = 0` -/
 def exCbStop : CallbackX Nat := { run := id, ticks := fun _ => 1, ctl := fun _ i _ => (i, 0) }
